@@ -138,7 +138,7 @@ THEOREMS = ["T_Hull: every point is a convex combination (lambda >= 0, sum 1) of
 
 
 def run(ctx):
-    res = core.run_model(ctx, "MC_C18", 1800, thorough_seeds=(2, 3, 5))
+    res = core.run_model(ctx, "MC_C18", 1800, thorough_seeds=(2, 3, 5, 7))
     core.tlc_must_pass(res, "MC_C18")
     ctx.add_tlc(res, "every shape x parameter: exact convex-combination certificate")
     ctx.theorems = THEOREMS
